@@ -64,6 +64,9 @@ def main(argv):
     if cmd == "mutants":
         from tools import mutants
         return mutants.main(argv[2:])
+    if cmd == "seeded":
+        from tools import seeded
+        return seeded.main(argv[2:])
     if cmd == "digests":
         import selftest
         return selftest.cmd_digests(argv[2], int(argv[3]))
